@@ -486,6 +486,9 @@ func cmdCheck(args []string) int {
 func (w *World) externKeys() []string {
 	var out []string
 	for k := range w.externs {
+		if strings.Contains(k, "|") {
+			continue
+		}
 		out = append(out, k)
 	}
 	sort.Strings(out)
